@@ -70,9 +70,18 @@ def r2_reservation_raii(chk):
             r.bad(cfg, "anchor|SendReservation::drop", "-", "no Drop impl for SendReservation: a cancelled send leaks its reservation")
             continue
         subs = [c for c in d.calls if c.matches(r"atomic::Atomic::fetch_sub$") and (c.recv() or "").endswith(".reserved_count")]
-        ok = bool(subs) and any(g.atom[0] == "place" and g.atom[1].endswith(".committed") and g.truth is False for g in d.guards(subs[0].blk, select_aware=False))
+        # the flag: the bool field of SendReservation (found by type, not by name); the commit method: the one that sets it
+        adt_r = next((a for p_, a in prog.facts.adts.items() if p_.endswith("ready_pipe_queue::SendReservation")), {"variants": []})
+        flags = [x["name"] for v in adt_r["variants"] for x in v["fields"] if x["ty"] == "bool"]
+        ok = bool(subs) and any(g.atom[0] == "place" and any(g.atom[1].endswith("." + f_) for f_ in flags) and g.truth is False for g in d.guards(subs[0].blk, select_aware=False))
+        setters = []
+        for sb in prog.bodies.values():
+            if sb.impl_self and "ready_pipe_queue::SendReservation" in sb.impl_self and sb.impl_trait is None and sb.kind in ("fn", "assoc_fn"):
+                for _b, _i, st in sb.statements():
+                    if st["k"] == "assign" and st["p"]["pr"] and st["p"]["pr"][-1][0] == "field" and st["p"]["pr"][-1][2] in flags and st["r"]["k"] == "use" and st["r"]["o"].get("int") == 1 and sb.rec.get("argc", 0) == 1:
+                        setters.append(__import__("vlib.mir", fromlist=["strip_generics"]).strip_generics(sb.path))
         (r.ok if ok else r.bad)(cfg, "SendReservation::drop|rollback iff !committed", where(d, subs[0].blk if subs else 0), *([] if ok else ["the rollback in Drop is not conditioned on `!self.committed`"]))
-        for c in prog.calls_to(r"SendReservation::commit$"):
+        for c in [x for x in prog.all_calls() if x.callee in setters]:
             b = c.body
             if "tests" in b.path:
                 continue
